@@ -1244,6 +1244,49 @@ func (e *specEnv) evalCall(n *ast.CallExpr) (sval, error) {
 			return sval{}, fmt.Errorf("no single-method interface with method %s is asserted anywhere", mn)
 		}
 		return sval{v: scalar(x.implementsT(v.v.T, it)), typ: boolT}, nil
+	case "argval": // argval(f, i, k): the k-th argument (receiver excluded) of the textually i-th call of f in this function, as passed on this path
+		id, ok := n.Args[0].(*ast.Ident)
+		lit, ok2 := n.Args[1].(*ast.BasicLit)
+		lit3, ok3 := n.Args[2].(*ast.BasicLit)
+		if !ok || !ok2 || !ok3 || e.frame == nil {
+			return sval{}, fmt.Errorf("argval(function, call index, argument index)")
+		}
+		idx, _ := strconv.Atoi(lit.Value)
+		k, _ := strconv.Atoi(lit3.Value)
+		var calls []*ssa.Call
+		for _, b := range e.frame.fn.Blocks {
+			for _, in := range b.Instrs {
+				if c, ok := in.(*ssa.Call); ok {
+					if sc := c.Call.StaticCallee(); sc != nil && (sc.Name() == id.Name || x.p.Names[sc] == id.Name) {
+						calls = append(calls, c)
+					}
+				}
+			}
+		}
+		sort.Slice(calls, func(i, j int) bool { return calls[i].Pos() < calls[j].Pos() })
+		if idx >= len(calls) {
+			return sval{}, fmt.Errorf("argval(%s, %d, ..): this function has only %d calls of it", id.Name, idx, len(calls))
+		}
+		c := calls[idx]
+		sc := c.Call.StaticCallee()
+		if sc.Signature.Recv() != nil {
+			k++ // Args[0] is the receiver
+		}
+		if k >= len(c.Call.Args) {
+			return sval{}, fmt.Errorf("argval(%s, %d, %d): no such argument", id.Name, idx, k)
+		}
+		av := c.Call.Args[k]
+		if _, ran := e.frame.env[c]; !ran {
+			return sval{v: x.freshVal(e.s, "notcalled", av.Type()), typ: av.Type()}, nil
+		}
+		if v, have := e.frame.env[av]; have {
+			return sval{v: v, typ: av.Type()}, nil
+		}
+		if cst, isConst := av.(*ssa.Const); isConst {
+			_ = cst
+			return sval{v: x.valueOf(e.s, av), typ: av.Type()}, nil
+		}
+		return sval{}, fmt.Errorf("argval(%s, %d, %d): the argument value is not available on this path", id.Name, idx, k)
 	case "retval", "called": // retval(f, i): what the textually i-th call of f in this function returned on this path; called(f, i): whether it ran
 		id, ok := n.Args[0].(*ast.Ident)
 		lit, ok2 := n.Args[1].(*ast.BasicLit)
@@ -1270,6 +1313,9 @@ func (e *specEnv) evalCall(n *ast.CallExpr) (sval, error) {
 		v, ran := e.frame.env[calls[idx]]
 		if name == "called" {
 			if ran {
+				if c, cond := e.frame.ranCond[calls[idx]]; cond {
+					return sval{v: scalar(c), typ: boolT}, nil // ran on some of the paths merged into this one
+				}
 				return sval{v: scalar(TTrue), typ: boolT}, nil
 			}
 			return sval{v: scalar(TFalse), typ: boolT}, nil
